@@ -1089,8 +1089,10 @@ impl Machine {
                 Val::Int(0)
             } else {
                 let up = f.to_ascii_uppercase();
-                if up.contains("INF") || up.contains("NAN") {
-                    self.flags.fuzzy_eq = true; // undocumented spellings
+                if (up.contains("INF") || up.contains("NAN")) && t != Ty::Int {
+                    // undocumented spellings: open for the float types; an Integer target refuses
+                    // them under either reading (not a number / not in range)
+                    self.flags.fuzzy_eq = true;
                 }
                 match parse_number(f) {
                     Some(v) => v,
